@@ -518,6 +518,8 @@ impl Drop for TopicDropGuard {
         let previous_counter = self
             .counter
             .fetch_sub(1, std::sync::atomic::Ordering::SeqCst);
+        #[cfg(p2panda_p2panda_verif)]
+        crate::verif_c29::yield_point("drop_after_decrement");
 
         trace!(
             topic = self.topic.fmt_short(),
